@@ -1,0 +1,15 @@
+// Copyright 2024 The Go Authors. All rights reserved.
+// Use of this source code is governed by a BSD-style
+// license that can be found in the LICENSE file.
+
+//go:build verif
+
+// Contracts (//@ lines) used by the verification of the godev commands;
+// compiled only with -tags verif.
+
+package content
+
+// Error always returns an error value; it changes nothing.
+//@ contract Error
+//@   ensures result != nil
+//@   modifies nothing
